@@ -23,6 +23,7 @@ type Env struct {
 	mu        sync.Mutex // guards the lazily filled caches below (an Env may be shared by workers)
 	elCands   []string
 	attrCands map[string][]string
+	recent    map[string]string // attribute name -> a value used recently (reused across elements)
 }
 
 func NewEnv(ops []spec.Op) *Env {
@@ -303,6 +304,18 @@ func (e *Env) Attrs(r *rand.Rand, el string) [][2]string {
 			k = gen.AttrVocab[r.Intn(len(gen.AttrVocab))]
 		}
 		val := e.AttrValue(r, el, k)
+		// the same (name, value) pair again on another element: what one element's rules accept
+		// another's may refuse
+		e.mu.Lock()
+		if e.recent == nil {
+			e.recent = map[string]string{}
+		}
+		if prev, ok := e.recent[k]; ok && r.Intn(8) == 0 {
+			val = prev
+		} else if r.Intn(4) == 0 || len(val) >= 128 {
+			e.recent[k] = val
+		}
+		e.mu.Unlock()
 		switch r.Intn(24) {
 		case 0:
 			// the attribute's own name as its value (the XHTML spelling of a boolean attribute)
